@@ -215,15 +215,13 @@ fn run_child(shape: &str, n: usize) -> Result<f64, String> {
 }
 
 fn shape_check(shape: &str, n: usize) -> Option<String> {
+    // (this shape is quadratic on the unchanged tree — a listed finding —, so it is run at a size
+    // that keeps 4n within the child's time limit; 70 000 is still beyond 65 536 nested elements)
+    let n = if shape == "nest-end-tag-handlers" { 70_000 } else { n };
     let t1 = match run_child(shape, n) {
         Ok(t) => t,
         Err(e) => return Some(format!("shape {shape} at n={n}: {e}")),
     };
-    // (exit status only: per-element cost of run-time registered end-tag handlers is dominated by
-    // allocation and cache effects at these sizes, the 4n/n CPU ratio is not stable enough to judge)
-    if shape == "nest-end-tag-handlers" {
-        return None;
-    }
     let t4 = match run_child(shape, 4 * n) {
         Ok(t) => t,
         Err(e) => return Some(format!("shape {shape} at n={}: {e}", 4 * n)),
@@ -426,6 +424,8 @@ pub fn run_check(ctx: &Ctx) -> i32 {
                 let _ = msg;
                 if *shape == "many-selectors" && msg2.contains("not proportional") {
                     ctx.known_or_violation("selector-set-compile-quadratic", msg2.clone(), case, &|| Some(msg2.clone()));
+                } else if *shape == "nest-end-tag-handlers" && msg2.contains("not proportional") {
+                    ctx.known_or_violation("end-tag-handler-scan-quadratic", msg2.clone(), case, &|| Some(msg2.clone()));
                 } else {
                     ctx.violation_determinism(msg2, case, &|| None);
                 }
